@@ -8,6 +8,7 @@ import gen as G
 import verde as vd
 
 ID = "C13"
+TRANSLATED = "coords"      # Gen/Coords.lean is regenerated from /repo by py2lean.py and bridged to the model in Props/C13.lean
 FILES = ["verde/coordinates.py", "verde/projections.py", "verde/utils.py"]
 RULE = ("corpus (boundary points, degenerate regions, invalid regions) + seeded stream over get_region / inside / pad_region / "
         "check_region / scatter_points / maxabs / project_region with arrays of shapes 1-D..3-D; non-trivial = the implementation "
